@@ -79,12 +79,15 @@ func (c *Chain) setLogsLocked(n uint64, logs []types.Log) {
 			l.BlockHash = h.Hash()
 		}
 		if l.TxHash == (common.Hash{}) {
-			l.TxHash = common.BigToHash(new(big.Int).SetUint64(n<<16 | uint64(i)<<4 | c.forkID&0xf))
+			// logs come in pairs from one transaction (a transaction may emit several watched logs); the transaction index is
+			// deliberately not the log index
+			tx := uint64(i / 2)
+			l.TxHash = common.BigToHash(new(big.Int).SetUint64(n<<16 | tx<<4 | c.forkID&0xf))
+			l.TxIndex = uint(tx)*3 + 1
 		}
 		if l.Index == 0 {
 			l.Index = uint(i)
 		}
-		l.TxIndex = uint(i)*3 + 1 // deliberately not the log index
 		out[i] = l
 	}
 	c.logs[n] = out
